@@ -9,7 +9,8 @@ from hypothesis import strategies as st
 
 from vf import dense, gen
 from vf.core import Clause, Property, Violation
-from vf.osk import IS_TM, call_kwargs, eff_limit, eff_tau, guarded, mk_model, mk_teams, rate_values
+from vf.league import league_class
+from vf.osk import IS_TM, call_kwargs, eff_limit, eff_tau, guarded, mk_model, mk_teams, observed_or_rate, rate_values
 from vf.stateful import machine_factory, replayer
 
 EPS = sys.float_info.epsilon
@@ -19,7 +20,7 @@ def check_single(case, ctx):
     cfg, teams, call = case["cfg"], case["teams"], case["call"]
     tau = eff_tau(cfg, call)
     lim = eff_limit(cfg, call)
-    res = rate_values(cfg, teams, call, ctx)
+    res = observed_or_rate(case, ctx)
     for lab in gen.game_labels(case):
         ctx.label(lab)
     binding = False
@@ -217,6 +218,9 @@ def long_history_custom(ctx, seed, tier, shard, nshards, n):
         ctx.end()
 
 
+OBJ_LEAGUE = league_class("C06ObjectLeague", ("sigma",), "C06")
+
+
 PROPERTY = Property(
     pid="C06",
     clauses=[
@@ -229,6 +233,11 @@ PROPERTY = Property(
                quick=160, thorough=3000, steps_quick=50, steps_thorough=300,
                rule="rule-based machine: league of 6-12 players, returned ratings fed back, per-call tau/limit_sigma arbitrary; invariants after every "
                     "game; non-trivial = >= 10 games with some player in >= 5"),
+        Clause(name="league-objects-history", kind="stateful", machine=machine_factory(OBJ_LEAGUE), check=replayer(OBJ_LEAGUE),
+               quick=320, thorough=6000, steps_quick=30, steps_thorough=120,
+               rule="second league machine (vf/league.py): named rating objects on one model, the pool keeps the returned OR the passed-in objects, the "
+                    "list a game returned is rated again, predictions interleaved, teams of up to 3 with newcomers next to settled players; the "
+                    "single-call bounds after every game and the quadrature bound per player object; non-trivial = >= 8 games with some player in >= 4"),
         Clause(name="long-history", kind="custom", custom=long_history_custom, check=replayer(League), quick=0, thorough=64, shards_thorough=16,
                rule="2 000-game leagues expanded from a Hypothesis-drawn integer; non-trivial = >= 1 000 games played"),
     ],
